@@ -53,6 +53,30 @@ CHECKS = {
         "every position; batches must be rejected by the non-General methods.",
         note="degrees are those returned by Rule.activate_with (their value is C06's business; in the constructed blocks they are also checked against weight x input); trigger events of disabled rules are not observable effects and are ignored",
     ),
+    "C09": dict(
+        level="exploration",
+        technique="runtime monitor on IntegralDefuzzifier.defuzzify (5 classes) and Op.midpoints; scalar re-computation of each definition from memberships sampled on sets rebuilt row by row; metamorphic translation and batch-vs-single checks on monitored calls",
+        text="For every observed defuzzification the definition (centroid, bisector with tie mean, smallest/mean/largest of maximum) is recomputed "
+        "with scalar loops from the memberships at the monitor's own midpoints, one batch row at a time; range, NaN-iff-all-zero, "
+        "SOM<=MOM<=LOM, translation invariance of the centroid and batch==per-set are checked on generated aggregated sets at resolutions 1..1000.",
+        note="memberships come from the library's Term.membership on sets with plain float degrees (C03/C04 trusted); SOM/LOM exact, others 1e-11 x scale, near-ties (1e-12) among candidate points are counted ambiguous",
+    ),
+    "C10": dict(
+        level="exploration",
+        technique="runtime monitors on WeightedAverage/WeightedSum.defuzzify, Aggregated.grouped_terms and activation_degree with a scalar grouped-sum model; metamorphic zero-degree insertion",
+        text="Every observed weighted defuzzification is recomputed row by row: grouping by term name in first-seen order, degrees folded with "
+        "the scalar formula of the aggregation operator, sum(w z)/sum(w) or sum(w z) with z from the term; NaN-iff-empty, bounds for "
+        "constants, kind inference, rejection of mixed kinds and invariance under inserting a zero-degree activation at every position.",
+        note="z values come from the library's membership/tsukamoto (C03/C11 trusted); tolerance 1e-12 x magnitude; Tsukamoto degrees above the height are out of domain",
+    ),
+    "C11": dict(
+        level="exploration",
+        technique="runtime monitor on Term.tsukamoto (closed-form inverse + round trip through the term's own membership) + offline monotonicity checker over the recorded (term,y)->z table",
+        text="Every observed tsukamoto element with y in (0,height) must be finite, agree with the closed-form inverse and map back to y through "
+        "the membership function; z must be monotone in y in the term's direction; arrays must equal element-wise calls; the 14 "
+        "non-monotonic shape terms, Constant, Linear and Function must refuse.",
+        note="x-space 1e-9 of the span and round trip 1e-9*h, with conditioning-aware terms for Arc; finiteness only required where the real inverse is below 1e300",
+    ),
 }
 NOT_APPLICABLE = [
     {"property_id": p, "reason": "check not built yet in this session (work in progress; see DESIGN.md §4)"} for p in ALL if p not in CHECKS
